@@ -21,6 +21,12 @@ type websocket struct {
 	socket  *types.WebSocketConn
 	mu      sync.Mutex
 	reading sync.Once
+
+	// sending and closePending (guarded by stateMu) let DoClose leave the
+	// connection open until a batch that is still being written is out
+	stateMu      sync.Mutex
+	sending      bool
+	closePending bool
 }
 
 // WebSocket transport
@@ -138,11 +144,23 @@ func (w *websocket) onMessage(data types.BufferInterface) {
 // Writes a packet payload.
 func (w *websocket) Send(packets []*packet.Packet) {
 	w.SetWritable(false)
+	w.stateMu.Lock()
+	w.sending = true
+	w.stateMu.Unlock()
 	go w.send(packets)
 }
 func (w *websocket) send(packets []*packet.Packet) {
 	vhook.Yield("ws.send.start")
 	defer func() {
+		w.stateMu.Lock()
+		w.sending = false
+		closeNow := w.closePending
+		w.stateMu.Unlock()
+		if closeNow {
+			// DoClose ran while this batch was being written
+			w.socket.Close()
+		}
+
 		w.Emit("drain")
 		w.SetWritable(true)
 		w.Emit("ready")
@@ -243,7 +261,17 @@ func (w *websocket) write(data types.BufferInterface, compress bool) {
 // Closes the transport.
 func (w *websocket) DoClose(fn types.Callable) {
 	ws_log.Debug(`closing`)
-	defer w.socket.Close()
+	defer func() {
+		w.stateMu.Lock()
+		if w.sending {
+			// the writer goroutine still holds a batch: it closes the connection when it is done
+			w.closePending = true
+			w.stateMu.Unlock()
+			return
+		}
+		w.stateMu.Unlock()
+		w.socket.Close()
+	}()
 	if fn != nil {
 		fn()
 	}
